@@ -169,8 +169,11 @@ TABLES = [
     ("mapping<uint8_t,uint8_t>", _u64(2) + b"\x01\x02\x01\x03", False, {1: 3}, _u64(1) + b"\x01\x03"),
     ("string", _u64(2) + "é".encode("utf-8"), False, "é", _u64(2) + "é".encode("utf-8")),
     ("variant<uint8_t,string>", _u64(1) + _u64(1) + b"x", False, "VARIANT", _u64(1) + _u64(1) + b"x"),
+    ("set<Addr>", _u64(2) + _u64(5) + _u64(5), False, {5}, _u64(1) + _u64(5)),              # non-canonical, 64-bit elements
+    ("mapping<Addr,bool>", _u64(2) + _u64(1) + b"\x01" + _u64(1) + b"\x02", False, {1: True}, _u64(1) + _u64(1) + b"\x01"),
 ]
-U_ACTIONS = ("leave", "read", "type_same", "reload", "read_twice", "type_unknown")
+EQUIV = {"set<Addr>": "set<uint64_t>", "mapping<Addr,bool>": "mapping<uint64_t,bool>", "set<uint8_t>": "set<int8_t>"}
+U_ACTIONS = ("leave", "read", "type_same", "reload", "read_twice", "type_unknown", "type_equiv", "clear_value")
 
 
 def other(t: int, a0: int, a1: int, a2: int) -> bool:
@@ -216,6 +219,21 @@ def _run_other(ti, acts):
             raw_held = False
         elif a == "type_same":
             ad.type_name = cur_type
+        elif a == "type_equiv":
+            # a different type name with the same layout (Addr / uint64_t): still "a different type name" - the table must be
+            # written as the encoding of its current value, which for non-canonical loaded bytes differs from them
+            if tname not in EQUIV or cur_type != tname:
+                continue
+            cur_type = EQUIV[tname]
+            ad.type_name = cur_type
+        elif a == "clear_value":
+            # an in-place edit that leaves an empty (falsy) value
+            if unknown or value in (None, "VARIANT") or not hasattr(value, "clear") or cur_type != loaded_type:
+                continue
+            ad.data.clear()
+            raw_held = False
+            value = type(value)()
+            canon = _u64(0)
         elif a == "type_unknown":
             # renaming to a type without codec is only meaningful for tables whose data is raw bytes anyway
             if not unknown:
